@@ -15,7 +15,7 @@ from .c01 import det_json
 
 ID = "C11"
 GEN = ["FilterTok"]
-RULE = ("1..3 detection rules (+ sometimes a correlation rule) x 1..2 filters; detection names from {sel, filter, 1st, _u, "
+RULE = ("1..3 detection rules x 1..2 filters; detection names from {sel, filter, 1st, _u, "
         "Any, OF, notepad, selection_1, selection_2, flt_a, flt_b}; rule conditions with identifiers, them, patterns; filter "
         "conditions with identifiers, not, them, prefix/suffix patterns; log sources in all subset relations; rule lists by "
         "id / name / any / empty / non-matching; repeated loads (fresh random prefix each time); distinct = distinct "
